@@ -3,10 +3,13 @@ PROP = {'rule': 'rapid-generated cases. One case = one LowNodeLoad plugin instan
          'round or odd allocatable, optionally a raw-allocatable annotation, optionally unschedulable; low/high thresholds absolute or '
          'deviation-based on any subset of cpu/memory/pods, optional prod low/high thresholds, resource weights; anomaly condition '
          'absent or ConsecutiveAbnormalities 1-4 with timeout 1h/24h/1ns; pod selectors, evictable namespaces, per-pod evictor verdict '
-         'and Evict() result, NodeFit, NumberOfNodes, dry-run) driven through 1-6 successive Balance rounds on the same instance; every '
+         'and Evict() result, optionally a STATEFUL evictor filter that admits at most k (0-4) evictions per node / namespace / workload '
+         'label per round with the verdict taken at call time, NodeFit, NumberOfNodes, dry-run) driven through 1-8 successive Balance '
+         'rounds on the same instance; every '
          'round regenerates pods (prod / non-prod, with / without metrics), system usage, stale pod metrics and NodeMetric freshness '
          '(fresh / expired / no update time / missing / empty status), with node usage levels that persist across rounds with '
-         'probability 5/8-6/8 and totals aimed at the thresholds (equal, +-1, 16 steps in between). non-trivial = in some round a '
+         'probability 5/8-6/8 (plus "prodhot" nodes that are calm at node level but above a prod high threshold in 6 of 8 rounds, and '
+         '"cold" nodes without prod load) and totals aimed at the thresholds (equal, +-1, 16 steps in between). non-trivial = in some round a '
          'source node fell back under its high threshold after >=1 successful eviction while pods that pass the filters were still '
          'left on it. distinct = FNV-64 fingerprint of the full case (configuration + all rounds).',
  'assumptions': ['node pools of one plugin instance select disjoint node sets (overlapping pools are not generated)',
@@ -18,9 +21,16 @@ PROP = {'rule': 'rapid-generated cases. One case = one LowNodeLoad plugin instan
                  '(never reached) or 1 ns (always reached before the next round)',
                  'threshold quantities are recomputed exactly (big.Rat) and the value used by koordinator is assumed to lie within '
                  'floor(exact -/+ (capacity*1e-12 + 1e-9)) (float64 evaluation + truncation); comparisons inside that band are not asserted',
-                 'consecutive abnormal rounds are counted over the rounds in which the node had a usable NodeMetric; only the lower bound '
-                 'is asserted (>= N rounds above the threshold and N of them in a row, N = ConsecutiveAbnormalities), hysteresis after the '
-                 'node became abnormal (ConsecutiveNormalities, timeout) is not constrained',
+                 'consecutive abnormal rounds are modelled per node and per level (node / prod runs separate) over the rounds in which the '
+                 'node had a usable NodeMetric: while ok the run grows with every round possibly above the threshold and restarts with a '
+                 'round certainly not above it; an eviction needs a run >= N (= ConsecutiveAbnormalities, lower bound; the code needs N+1); '
+                 'once possibly abnormal the node stays so until it CERTAINLY returned to ok: more than ConsecutiveNormalities rounds in a '
+                 'row certainly not above the threshold, or the balancer brought it back under the threshold of that level and went on to '
+                 'a further candidate pod (asserted only with a static filter and without NodeFit, where the remaining candidates are '
+                 'known); then a new run of N is required. Underused-node resets, timeout expiry and the extra normal mark after an '
+                 'eviction round are not modelled (they only make koordinator more conservative than the model)',
+                 'with a stateful evictor filter the verdict at the moment of each Evict call is recomputed from the successful evictions '
+                 'recorded so far in the round',
                  'the main unit builds the LowNodeLoad struct with the same filter composition as NewLowNodeLoad but feeds NodeMetrics '
                  'through an indexer-backed lister; the second unit goes through NewLowNodeLoad and swaps only the lister'],
  'units': [{'name': 'lownodeload',
@@ -36,9 +46,11 @@ PROP = {'rule': 'rapid-generated cases. One case = one LowNodeLoad plugin instan
                       'recomputed in the harness from the inputs: the node has a fresh NodeMetric and its usage minus the metrics of the '
                       'pods already evicted from it in this round is above a high threshold; another schedulable node is below all low '
                       'thresholds; an upper bound of the receivable load of the underused nodes minus what was already evicted is positive '
-                      'in every thresholded resource; with ConsecutiveAbnormalities N>1 the node was above the threshold in N measured '
-                      'rounds in a row; the pod passes the evictor verdict, pod selectors and namespace rules; nothing is evicted in '
-                      'dry-run. Zero evictions with no overloaded / no underused / only underused nodes follow from the per-call clauses. '
+                      'in every thresholded resource; with ConsecutiveAbnormalities N>1 the node has a current run of N measured rounds above the '
+                      'threshold of that level, and needs a new run after it certainly returned to normal (evicted back under the threshold, '
+                      'or more than ConsecutiveNormalities normal rounds); the pod passes the per-pod evictor verdict, pod selectors, '
+                      'namespace rules and, for a stateful evictor filter, the filter as evaluated at the moment of the call; nothing is '
+                      'evicted in dry-run. Zero evictions with no overloaded / no underused / only underused nodes follow from the per-call clauses. '
                       'Exploration, not proof: absence of violations over the sampled cases.',
               'note': 'one-directional (never asserts that an eviction must happen); node / pod ordering and NumberOfNodes are not asserted; '
                       'disjoint pools only; thresholds within the float rounding band are not asserted; the wall clock is read by '
